@@ -1,5 +1,5 @@
 import Driver.Util
-import Sqfs.Model.ImageParse
+import Sqfs.Model.ImageValidate
 namespace Driver.C03
 open Sqfs.Image
 
@@ -14,6 +14,18 @@ def run (args : List String) : IO Unit := do
   | ["parse"] =>
     let d := Description.ofLines (← readAll (← IO.getStdin) #[])
     for l in parseReport d do out.putStrLn l
+  | ["validate"] =>
+    let d := Description.ofLines (← readAll (← IO.getStdin) #[])
+    for l in validateReport d do out.putStrLn l
+  | ["validate", n] =>
+    let d := Description.ofLines (← readAll (← IO.getStdin) #[])
+    for l in validateReport d (n.toNat?.getD 4096) do out.putStrLn l
+  | ["blockreq"] =>
+    let d := Description.ofLines (← readAll (← IO.getStdin) #[])
+    for l in blockRequests d false do out.putStrLn l
+  | ["blockreq", "all"] =>
+    let d := Description.ofLines (← readAll (← IO.getStdin) #[])
+    for l in blockRequests d true do out.putStrLn l
   | _ => IO.eprintln "usage: sqfsmodel c03 parse|validate|blockreq|<op lines>"
 
 end Driver.C03
